@@ -43,6 +43,11 @@ RULES = [
     # dynamic tags whose expression text is case-significant (\\S vs \\s, "F" vs "f")
     {"name": "TagCase", "match": 'contains("TRIP") or contains("NETFLIX")',
      "tags": '{extract("TRIP (\\S+)")}, {split(field.memo, "F", 1)}, {extract(field.memo, "REF\\s(\\S+)")}'},
+    # dynamic tag values containing runs of blanks / tabs are kept as they are (only stripped at the ends and lower-cased); the
+    # condition reads neither field nor source, so two transactions that differ only there still get their own tag values
+    {"name": "TagWs", "match": "amount > 0 or amount < 0", "tags": "{field.memo}, {field.type}, {source}"},
+    # dynamic tags whose expression itself contains braces (counted quantifiers)
+    {"name": "TagBrace", "match": 'contains("NETFLIX") or contains("TRIP")', "tags": '{extract("(\\d{3})")}, {extract("TRIP (\\d{2})")}, {extract(field.memo, "REF (\\d{1,3})")}'},
 ]
 CSVROWS = [
     {"pattern": "NETFLIX", "merchant": "Netflix", "category": "Subs", "subcategory": "Streaming", "tags": "a|B"},
@@ -53,7 +58,7 @@ CSVROWS = [
     {"pattern": r"\d+", "merchant": "Numbered", "category": "Numbered", "subcategory": "", "tags": "a|num"},
 ]
 MODES = ["first_match", "most_specific"]
-TXNS = R.all_txns(ctxs=R.CTX + [R.CTX_WS])
+TXNS = R.all_txns(ctxs=R.CTX + [R.CTX_WS, R.CTX_WS2])
 
 
 def bounds(tier):
